@@ -20,7 +20,7 @@ func init() {
 			"(authorization appended before the device can report, key written before any authorization is accepted: C06/C07 ORDER rules) - these are the premises of the README's argument that reading dependents first yields a dependency-closed, record-aligned snapshot; " +
 			"SECRET the zip writer receives bytes only from (a) files named by ranging over PublicFiles, which does not contain server.keys, (b) the first result (public half) of the key loader, never the private half or the key file's tail, and (c) the constant README; " +
 			"LIMIT the rate-limit test dominates the creation of the archive and uses the limiter constructed from apiArchiveLimit/apiArchiveRate (positive constants in every configuration), and the structural rules of the limiter itself (C19: expiry keeps exactly the timestamps inside the window, admission iff fewer than the limit remain, all under its mutex) are re-run here. " +
-			"PREFIX the archive entry of a public file is io.Copy of the opened *os.File itself up to EOF (no limiting or offset reader), which with append-only writers is a record-aligned prefix. the device-table rules of C06 and the builder rules of C03 are re-run as premises of the closure argument. The one-shot registration rule of C07 (the key file is written at most once) and the saver rule of C03 (the archived record is written as signed) are re-run. NOT decided: atomicity of a single write(2) against a concurrent read(2) (operating system, trusted); actual interleavings of writers with the archive loop.",
+			"PREFIX the archive entry of a public file is io.Copy of the opened *os.File itself up to EOF (no limiting or offset reader), which with append-only writers is a record-aligned prefix. the device-table rules of C06 and the builder rules of C03 are re-run as premises of the closure argument. The one-shot registration rule of C07 (the key file is written at most once) and the saver rule of C03 (the archived record is written as signed) are re-run. ALIGN the report log is replayed only when its length is a multiple of 80 (or the loader cuts it back), so the log and its archived copy stay record-aligned. NOT decided: atomicity of a single write(2) against a concurrent read(2) (operating system, trusted); actual interleavings of writers with the archive loop.",
 		Assumptions: append([]string{"an O_APPEND write of one buffer and a concurrent read see either none or all of the record (README: File Writing and Archiving)"}, baseAssumptions...),
 		Run:         runC14,
 	})
@@ -82,6 +82,7 @@ func runC14(c *an.Ctx) {
 	_, hasSecret := pos["server.keys"]
 	c.Check(!hasSecret, "SECRET", initFn, 0, "secret:not-listed", "the key file server.keys is not in the archive list", "PublicFiles = "+strings.Join(list, ", "))
 	c.Count("ORDER", len(deps)+1)
+	alignedReportLog(c)
 
 	// the handler
 	var handler, addFile, addPub *ssa.Function
@@ -499,4 +500,42 @@ func findArchiveHandler(p *an.Program) (handler *ssa.Function, builderCall *ssa.
 		}
 	}
 	return handler, builderCall
+}
+
+// alignedReportLog: the report log stays a sequence of whole 80-byte records: the loader that replays it parses records
+// only under len(file) % 80 == 0 (a torn tail stops start-up instead of being skipped while the file keeps it - every
+// later append would then sit behind the torn bytes and the archived file would no longer be record-aligned), unless the
+// loader itself cuts the file back to the aligned prefix.
+func alignedReportLog(c *an.Ctx) {
+	p := c.P
+	parse := p.Method("server", "GCAServer", "parseReport")
+	if parse == nil {
+		return
+	}
+	n := 0
+	for _, site := range p.CallSites(parse) {
+		fn := site.Parent()
+		e := p.Effect(fn)
+		if e == nil || innermostLoopOf(fn, site.Block()) == nil {
+			continue // the datagram path parses one report per call; the replay parses them in a loop
+		}
+		n++
+		fi := p.Info(fn)
+		aligned := false
+		for _, f := range fi.FactsAt(site) {
+			if f.Neg || f.T.K != an.KBin || f.T.S != "==" {
+				continue
+			}
+			for k := 0; k < 2; k++ {
+				m := f.T.A[1-k]
+				if isConstTerm(f.T.A[k], "0") && m.K == an.KBin && m.S == "%" && isConstTerm(m.A[1], "80") && m.A[0].K == an.KLen {
+					aligned = true
+				}
+			}
+		}
+		truncates := e.FileOps["(*os.File).Truncate"] || e.FileOps["os.Truncate"]
+		c.Check(aligned || truncates, "ALIGN", fn, site.Pos(), an.KeyOf(fn, "report-log-aligned"), "the report log is replayed only when its length is a multiple of 80 (or the loader cuts it back to whole records): the file stays record-aligned for every later append and for the archive", "facts "+factList(fi.FactsAt(site)))
+	}
+	c.Count("ALIGN", n)
+	c.Floor("ALIGN", 1)
 }
